@@ -323,6 +323,12 @@ C06frame(g, o, g2) ==
      IN \A b \in Apps \ {mine} :
           AppDb(o.db2, b) = AppDb(o.db, b) /\ AppUdb(o.udb2, b) = AppUdb(o.udb, b)
 
+\* a connection belongs to one app for its whole life: a bind on a bound connection is refused and
+\* changes nothing (otherwise handles obtained under the first app would be used under the second)
+C06bind(g, o, g2) ==
+  (CmdIs(o, "bind") /\ g.gc[o.e.c].bound) =>
+     HasErrF(o) /\ o.db2 = o.db /\ UBagOf(o.udb2) = UBagOf(o.udb) /\ o.err = ABSENT
+
 (***************************************************************************)
 (* C07  a nameplate lives exactly as long as someone holds it              *)
 (***************************************************************************)
@@ -412,6 +418,12 @@ C08d(g, o, g2) ==   \* the last close deletes the mailbox and all that hangs off
   (C08ante(g, o) /\ others = {}) =>
        /\ ~HasMb(o.db2, a, i) /\ MbSides(o.db2, i) = {}
        /\ MsgsOf(o.db2, a, i) = <<>> /\ {r \in o.db2.np : r.mbox = i} = {}
+
+\* one side's close never removes the other side's subscription: once a side of the mailbox has
+\* closed, messages still reach exactly the connections that are subscribed (C02.a on such steps)
+C08e(g, o, g2) ==
+  LET cn == g.gc[o.e.c] IN
+  (Succeeded(g, o) /\ CmdIs(o, "add") /\ \E r \in MbSides(o.db, cn.mboxId) : ~r.opened) => C02a(g, o, g2)
 
 (***************************************************************************)
 (* C09  a frame is sent only after its effects are committed               *)
@@ -636,8 +648,8 @@ F6sig(g, o) ==
   /\ Cardinality(MbSides(o.db, i)) > 2
 
 ClauseIds == <<"C01.a", "C01.b", "C02.a", "C02.b", "C03.a", "C03.b", "C03.c", "C03.d",
-               "C04.a", "C04.b", "C04.c", "C05.a", "C05.b", "C05.c", "C05.keep", "C06.frame",
-               "C07.a", "C07.b", "C07.c", "C07.d", "C07.e", "C08.a", "C08.b", "C08.c", "C08.d",
+               "C04.a", "C04.b", "C04.c", "C05.a", "C05.b", "C05.c", "C05.keep", "C06.frame", "C06.bind",
+               "C07.a", "C07.b", "C07.c", "C07.d", "C07.e", "C08.a", "C08.b", "C08.c", "C08.d", "C08.e",
                "C09.a", "C09.b", "C10.a", "C10.b", "C10.c", "C12.a", "C12.b", "C12.c",
                "C13.a", "C13.b", "C13.c", "C15.a", "C15.b", "C15.c", "C16.a", "C16.b", "C16.c",
                "C17.a", "C17.b", "C17.c", "C17.d", "C17.e", "C17.f", "C17.g", "C18.a">>
@@ -650,11 +662,11 @@ Holds(p, g, o, g2) ==
     [] p = "C04.a" -> C04a(g, o, g2) [] p = "C04.b" -> C04b(g, o, g2) [] p = "C04.c" -> C04c(g, o, g2)
     [] p = "C05.a" -> C05a(g, o, g2) [] p = "C05.b" -> C05b(g, o, g2)
     [] p = "C05.c" -> C05c(g, o, g2) [] p = "C05.keep" -> C05keep(g, o, g2)
-    [] p = "C06.frame" -> C06frame(g, o, g2)
+    [] p = "C06.frame" -> C06frame(g, o, g2) [] p = "C06.bind" -> C06bind(g, o, g2)
     [] p = "C07.a" -> C07a(g, o, g2) [] p = "C07.b" -> C07b(g, o, g2) [] p = "C07.c" -> C07c(g, o, g2)
     [] p = "C07.d" -> C07d(g, o, g2) [] p = "C07.e" -> C07e(g, o, g2)
     [] p = "C08.a" -> C08a(g, o, g2) [] p = "C08.b" -> C08b(g, o, g2)
-    [] p = "C08.c" -> C08c(g, o, g2) [] p = "C08.d" -> C08d(g, o, g2)
+    [] p = "C08.c" -> C08c(g, o, g2) [] p = "C08.d" -> C08d(g, o, g2) [] p = "C08.e" -> C08e(g, o, g2)
     [] p = "C09.a" -> C09a(g, o, g2) [] p = "C09.b" -> C09b(g, o, g2)
     [] p = "C10.a" -> C10a(g, o, g2) [] p = "C10.b" -> C10b(g, o, g2) [] p = "C10.c" -> C10c(g, o, g2)
     [] p = "C12.a" -> C12a(g, o, g2) [] p = "C12.b" -> C12b(g, o, g2) [] p = "C12.c" -> C12c(g, o, g2)
@@ -693,12 +705,14 @@ Ante(p, g, o, g2) ==
     [] p \in {"C04.a", "C04.b"} -> Allocated(o) # <<>>
     [] p \in {"C05.a", "C05.b", "C05.c", "C05.keep"} -> IsCmd(o) /\ ErrIs(o, "crowded")
     [] p = "C06.frame" -> o.e.k \in {"Cmd", "CrashInCmd"} /\ \E r \in o.db.mb : r.app # cn.app
+    [] p = "C06.bind" -> CmdIs(o, "bind") /\ g.gc[o.e.c].bound
     [] p = "C07.a" -> \E r \in o.db.nps : r.claimed /\ ~ClaimedIn(o.db2, r.app, r.name, r.side)
     [] p \in {"C07.c", "C07.e"} -> Carried(g, o) /\ CmdIs(o, "release")
     [] p = "C07.d" -> IsCmd(o) /\ ErrIs(o, "reclaimed")
     [] p \in {"C08.a", "C08.b"} -> C08ante(g, o)
     [] p = "C08.c" -> C08ante(g, o) /\ \E r \in MbSides(o.db, CloseId(g, o)) : r.side # cn.side /\ r.opened
     [] p = "C08.d" -> C08ante(g, o) /\ HasMb(o.db, cn.app, CloseId(g, o))
+    [] p = "C08.e" -> (Succeeded(g, o) /\ CmdIs(o, "add") /\ (\E r \in MbSides(o.db, cn.mboxId) : ~r.opened))
                       /\ ~(\E r \in MbSides(o.db, CloseId(g, o)) : r.side # cn.side /\ r.opened)
     [] p = "C09.a" -> o.out # <<>>
     [] p = "C09.b" -> \E k \in DOMAIN o.out : o.out[k].type \in {"allocated", "claimed", "released", "closed", "message"}
@@ -730,9 +744,9 @@ Ante(p, g, o, g2) ==
 PropClauses ==
   [C01 |-> {"C01.a", "C01.b"}, C02 |-> {"C02.a", "C02.b"},
    C03 |-> {"C03.a", "C03.b", "C03.c", "C03.d"}, C04 |-> {"C04.a", "C04.b", "C04.c"},
-   C05 |-> {"C05.a", "C05.b", "C05.c"}, C05keep |-> {"C05.keep"}, C06 |-> {"C06.frame"},
+   C05 |-> {"C05.a", "C05.b", "C05.c"}, C05keep |-> {"C05.keep"}, C06 |-> {"C06.frame", "C06.bind"},
    C07 |-> {"C07.a", "C07.b", "C07.c", "C07.d", "C07.e"},
-   C08 |-> {"C08.a", "C08.b", "C08.c", "C08.d"}, C09 |-> {"C09.a", "C09.b"},
+   C08 |-> {"C08.a", "C08.b", "C08.c", "C08.d", "C08.e"}, C09 |-> {"C09.a", "C09.b"},
    C10 |-> {"C10.a", "C10.b", "C10.c"}, C12 |-> {"C12.a", "C12.b", "C12.c"},
    C13 |-> {"C13.a", "C13.b", "C13.c"}, C15 |-> {"C15.a", "C15.b", "C15.c"},
    C16 |-> {"C16.a", "C16.b", "C16.c"},
